@@ -115,12 +115,18 @@ def _match(items: T.List[T.Any], s: str, pos: int, k: T.Callable[[int], bool], i
                 return False
             return _match(sub, s, p, lambda q: (q > p or n < lo) and rep(q, n + 1), ic, depth + 1)
         return rep(pos, 0)
+    if op in (sre_c.ASSERT, sre_c.ASSERT_NOT):
+        direction, sub = av
+        if direction < 0:
+            raise Undecided('regex look-behind outside the subset of the sample matcher')
+        ahead = _match(list(sub), s, pos, lambda p: True, ic, depth + 1)
+        return ahead == (op is sre_c.ASSERT) and nxt(pos)
     if op is sre_c.AT:
         name = str(av)
-        if name == 'AT_BOUNDARY':
+        if name in ('AT_BOUNDARY', 'AT_NON_BOUNDARY'):
             a = pos > 0 and _is_word(s[pos - 1])
             b = pos < len(s) and _is_word(s[pos])
-            return a != b and nxt(pos)
+            return (a != b) == (name == 'AT_BOUNDARY') and nxt(pos)
         if name in ('AT_BEGINNING', 'AT_BEGINNING_STRING'):
             return pos == 0 and nxt(pos)
         if name in ('AT_END', 'AT_END_STRING'):
@@ -195,6 +201,28 @@ _FORMS: T.Dict[str, T.Tuple[T.Optional[str], T.List[str], T.List[str], T.List[st
     'yaml_start': (None, ['indent'], ['  ---', ' ---', '  --- x', '\t---'], ['', '---', '  ...', 'ok', '  message: x']),
     'yaml_end': (None, [], ['  ...', ' ...', '  ...  ', '\t...'], ['', '...', '  ---', 'ok', '  message: x']),
 }
+
+
+# The status word of a test line is a word: `ok` / `not ok` is followed by white space, the test number after white space, or the end of the
+# line (TAP 12/13: `ok`/`not ok`, then a space and the number, a space and the description; TAP::Parser reads /^(not )?ok\b/).  A line that
+# merely starts with the letters `ok` (`okay`, `ok_then`, `ok1`) is no test line - it is an unknown line (TAP 13: an error; TAP 12: ignored).
+_STATUS_WORD_REJECT = ['okay', 'not okay', 'ok_then', 'okx 1', 'okay then # SKIP', 'ok1', 'not ok2 - d']
+_STATUS_WORD_ACCEPT = ['ok', 'not ok', 'ok 1', 'not ok 2', 'ok - d', 'ok desc', 'ok # SKIP', 'not ok # TODO x', 'ok 7 - d # skip']
+
+
+def status_word_problems(pattern: str, flags: int = 0) -> T.Tuple[T.List[str], T.List[str]]:
+    """(lines starting with ok/not ok + a word character that `re.match` takes for a test line, delimited test lines it refuses)."""
+    return ([r for r in _STATUS_WORD_REJECT if pattern_accepts(pattern, r, flags)],
+            [a for a in _STATUS_WORD_ACCEPT if not pattern_accepts(pattern, a, flags)])
+
+
+def status_word_selfcheck() -> None:
+    """Built-in positive example: the undelimited status word is seen, the delimited spellings are clean."""
+    if status_word_problems(r'((?:not )?ok)\s*([0-9]+)?') != (_STATUS_WORD_REJECT, []):
+        raise Undecided('status-word fact: the built-in undelimited example is not recognised')
+    for good in (r'((?:not )?ok)\b\s*([0-9]+)?.*', r'((?:not )?ok)(?![\w])\s*([0-9]+)?.*', r'((?:not )?ok)(?:\s+([0-9]+))?(?:\s.*)?$'):
+        if status_word_problems(good) != ([], []):
+            raise Undecided(f'status-word fact: the built-in delimited example {good!r} is not recognised')
 
 
 def diagnose(pattern: str, flags: int, kind: str) -> T.List[T.Tuple[str, str]]:
